@@ -5,7 +5,7 @@
    scanner's constants are regenerated from the source (Gen/Src_foldfilter.v).
    "valid UTF-8" = accepted by the model of util::DecodeUTF8 ([utf8_valid]);
    [short_line]: fewer than 2^31 bytes (pos_first_delimiter is an int32_t). *)
-From PP Require Import Fold.FoldDefs Fold.FoldProofs.
+From PP Require Import Fold.FoldDefs Fold.FoldProofs Fold.Utf8Grammar.
 Local Open Scope Z_scope.
 
 (* For every valid UTF-8 line, EVERY width (also 0), every delimiter list and both -s
@@ -50,6 +50,13 @@ Theorem C07_tool_identity : forall o ls,
 Proof. exact tool_identity_proof. Qed.
 Print Assumptions C07_tool_identity.
 
+(* The premise [utf8_valid] is met by every well-formed UTF-8 byte string in the sense of
+   the Unicode standard, Table 3-7 ([WF]: one constructor per row of the table), so the
+   theorems above hold for all valid UTF-8 lines, 1-4 byte code points included. *)
+Theorem C07_table37_is_valid : forall bs, WF bs -> utf8_valid bs = true.
+Proof. exact wf_utf8_valid. Qed.
+Print Assumptions C07_table37_is_valid.
+
 (* the empty line yields exactly one (empty) piece *)
 Theorem C07_empty_line_one_piece : forall o, wrap_lines [] o = WOk [[]] [[]].
 Proof. exact wrap_empty_line. Qed.
@@ -71,6 +78,13 @@ Example C07_nonvacuous_width :
     = WOk [[97]; [240; 159; 152; 128]] [[]; []] /\
   width_ok 1 [240; 159; 152; 128] = true /\ width_ok 3 [195; 169; 195; 169] = false.
 Proof. vm_compute. repeat split; reflexivity. Qed.
+
+Example C07_nonvacuous_table37 : WF [97; 195; 169; 226; 130; 172; 240; 159; 152; 128; 237; 159; 191; 244; 143; 191; 191].
+Proof.
+  apply wf_1; [unfold rng; lia|]. apply wf_2; [unfold rng; lia..|]. apply wf_3b; [unfold rng; lia..|].
+  apply wf_4a; [unfold rng; lia..|]. apply wf_3c; [unfold rng; lia..|]. apply wf_4c; [unfold rng; lia..|].
+  apply wf_nil.
+Qed.
 
 Example C07_nonvacuous_tool :
   let o := {| w_width := 2; w_keep := true; w_delims := [32] |} in
